@@ -54,4 +54,11 @@ theorem page_output_length (e : Env X H) (st : St H) (pg : List (Line X)) :
     (processPage e st pg).2.length = pg.length :=
   processPage_length e st pg
 
+/-- Processing a page AGAIN after its results were written back onto its lines (the same page object a second time, a resumed or
+repeated run over stored results) gives the same transcriptions: the confident-line test reads the logits only, a confident line
+keeps its transcription, a decoded line is decoded from the same context. -/
+theorem reprocess_fixpoint (e : Env X H) (st st' : St H) (pg : List (Line X)) :
+    (processPage e st' (writeBack pg (processPage e st pg).2)).2 = (processPage e st pg).2 :=
+  PD.processPage_writeBack resets_last_line e st st' pg
+
 end C08
